@@ -124,6 +124,25 @@ type crashWAL struct {
 	inner wal.WAL
 	ctl   *crashCtl
 	gid   uuid.UUID
+	rec   *walRec // optional: what this store was asked to keep (entries by index, snapshots it created)
+}
+
+// walRec is the harness's own record of one log store across incarnations: every entry handed to
+// Save (the last one written at an index wins, as in the store) and every snapshot the node
+// created or installed. It lets an engine compute "the state after exactly the entries up to the
+// snapshot's index" after the store itself has compacted them away.
+type walRec struct {
+	mu        sync.Mutex
+	ents      map[uint64]raftpb.Entry
+	created   []raftpb.Snapshot
+	installed []uint64
+}
+
+var walRecs sync.Map // "<db pointer>/<group id>" -> *walRec
+
+func walRecFor(db uintptr, gid uuid.UUID) *walRec {
+	v, _ := walRecs.LoadOrStore(fmt.Sprintf("%x/%s", db, gid), &walRec{ents: map[uint64]raftpb.Entry{}})
+	return v.(*walRec)
 }
 
 func (w *crashWAL) InitialState() (raftpb.HardState, raftpb.ConfState, error) {
@@ -152,13 +171,31 @@ func (w *crashWAL) Save(hs raftpb.HardState, es []raftpb.Entry, sn raftpb.Snapsh
 	if sn.Metadata.Index != 0 {
 		kind += ":snap"
 	}
-	return w.ctl.write(kind, func() error { return w.inner.Save(hs, es, sn) })
+	return w.ctl.write(kind, func() error {
+		err := w.inner.Save(hs, es, sn)
+		if err == nil && w.rec != nil {
+			w.rec.mu.Lock()
+			for _, e := range es {
+				w.rec.ents[e.Index] = e
+			}
+			if sn.Metadata.Index != 0 {
+				w.rec.installed = append(w.rec.installed, sn.Metadata.Index)
+			}
+			w.rec.mu.Unlock()
+		}
+		return err
+	})
 }
 func (w *crashWAL) CreateSnapshot(i uint64, cs *raftpb.ConfState, data []byte) (raftpb.Snapshot, error) {
 	var sn raftpb.Snapshot
 	err := w.ctl.write("compact", func() error {
 		var e error
 		sn, e = w.inner.CreateSnapshot(i, cs, data)
+		if e == nil && w.rec != nil {
+			w.rec.mu.Lock()
+			w.rec.created = append(w.rec.created, sn)
+			w.rec.mu.Unlock()
+		}
 		return e
 	})
 	return sn, err
